@@ -424,3 +424,31 @@ Proof.
   destruct (recv_obj sch h mid (Some id)) as [ob|] eqn:R; [|apply eval_mut_noobj; auto].
   apply mut_body; [exact (recv_ok_of _ _ _ _ _ _ Hok R G)|exact F].
 Qed.
+
+(* ================================================================== Set *)
+Lemma set_prog_correct : set_prog_stmt.
+Proof.
+  intros sch h r f v Hwf Hok Harg. destruct r as [|mid p| | | | | | | | | |]; try exact I.
+  unfold run_set, run_meth, canon_set, rp_fields. cbn [rm_guard rm_cases].
+  rewrite rp_assoc_canon.
+  destruct p as [id|]; cbn [step xst_of].
+  2:{ destruct (nth_error (fields_of sch mid) f); reflexivity. }
+  rewrite field_of_nth. cbn [set_arg_okb] in Harg. unfold rp_fields in Harg.
+  destruct (get_msg sch mid) as [md|] eqn:G.
+  2:{ rewrite (fields_of_none _ _ G). destruct f; reflexivity. }
+  rewrite (fields_of_md _ _ _ G) in *.
+  destruct (nth_error (m_fields md) f) as [fd|] eqn:F; cbn [option_map]; [|reflexivity].
+  destruct (recv_obj sch h mid (Some id)) as [ob|] eqn:R; [|reflexivity].
+  unfold canon_set_body.
+  destruct (f_shape fd) as [|pk|o|kk] eqn:S.
+  - destruct (f_ty fd) as [k|m] eqn:T.
+    + cbn [eval_set]. rewrite F, S. unfold eval_conv. rewrite T, rconv_eqb_refl.
+      destruct v; cbn [pval_to_elem]; try reflexivity. destruct (wt_scalar k v); reflexivity.
+    + cbn [eval_set]. rewrite F, S, T, Nat.eqb_refl.
+      destruct v as [|m' q| | | | | | | | | |]; cbn [pval_to_elem]; try reflexivity.
+      rewrite (Nat.eqb_sym m' m). destruct q; destruct (Nat.eqb m m'); reflexivity.
+  - cbn [eval_set]. rewrite F, S. destruct v; try reflexivity. rewrite Harg. destruct (read_list h r); reflexivity.
+  - cbn [eval_set]. rewrite (member_in_self _ _ _ _ F S). unfold eval_conv. rewrite rconv_eqb_refl.
+    destruct (pval_to_elem (f_ty fd) v); reflexivity.
+  - cbn [eval_set]. rewrite F, S. destruct v; try reflexivity. rewrite Harg. destruct (read_map h r); reflexivity.
+Qed.
